@@ -8,7 +8,10 @@ import pandas as pd
 def cut_parts(df, cuts):
     """cuts: sorted positions in [0, n]; repeated positions give empty partitions."""
     bounds = [0] + list(cuts) + [len(df)]
-    return [df.iloc[bounds[i]: bounds[i + 1]] for i in range(len(bounds) - 1)]
+    # copies, not views: dask tokenizes DataFrame blocks through their pickle, and a non-contiguous view pickles
+    # differently from its (contiguous) unpickled copy - value-equal parts would get different names in another
+    # process (a triaged C16 false alarm caused by the harness, not by dask-expr)
+    return [df.iloc[bounds[i]: bounds[i + 1]].copy() for i in range(len(bounds) - 1)]
 
 
 def _getpart(i, parts=None):
@@ -47,7 +50,8 @@ def build(df, layout, scratch=None):
                 kw["divisions"] = divisions
             return dx.from_map(functools.partial(_getpart, parts=parts), list(range(len(parts))), **kw)
         else:
-            dl = [dask.delayed(p) for p in parts]
+            # pure=True: deterministic key from the content (an impure delayed gets a fresh uuid name at every build)
+            dl = [dask.delayed(p, pure=True) for p in parts]
             kw = {"meta": df.iloc[:0]}
             if divisions is not None:
                 kw["divisions"] = divisions
